@@ -33,6 +33,7 @@ fn main() {
         Some("replay") => driver::replay_main(&args[2..]),
         Some("selftest") => driver::selftest_main(),
         Some("gen") => driver::gen_main(&args[2..]),
+        Some("exec-trace") => driver::exec_trace_main(&args[2..]),
         Some("list") => { for id in checks::ALL { println!("{}", id); } 0 }
         _ => { eprintln!("usage: sim check|worker|replay|probe|selftest ..."); 2 }
     };
